@@ -427,6 +427,9 @@ def run(repo, tier):
     from .common import run_cache_pure
     from .C08 import CACHE_PURE_OK
     run_cache_pure(repo, res, modules={m for m in repo.modules if '.tests' not in m}, exempt=CACHE_PURE_OK)
+    # make_model_image / make_residual_image must leave the stored fit tables alone (a later call would see the added column)
+    from .C18 import mixin_rules as _c18_mixin_rules
+    _c18_mixin_rules(repo, res)
     from .common import run_generic_pack
     run_generic_pack(repo, res, PROP, ())
     return res
